@@ -43,7 +43,7 @@ def cases(draw, rot=0):
         'lines': lines, 'fault': fault, 'defs': defs, 'compress': draw(st.booleans()), 'hexoff': hexoff,
         'o': draw(st.sampled_from(['default', 'out.bin', 'build/fw.bin', 'fw.hex', 'build/OUT.HEX'])), 'l': draw(st.sampled_from([None, 'labels.txt', 'build/fw.labels'])),
         # where the program lives relative to the working directory (output paths are relative to the working directory)
-        'src': draw(st.sampled_from(['cwd', 'cwd', 'sub', 'abs'])),
+        'src': draw(st.sampled_from(['cwd', 'cwd', 'sub', 'abs', 'symlink'])),
         'incfile': draw(st.booleans()),
         # older output files: none / unrelated contents / the -o file already holds exactly this program (a rebuild), the others stale
         'old': draw(st.sampled_from([False, True, True, 'same'])),
@@ -67,11 +67,21 @@ def judge(c, res):
                 f.write('\n'.join(lines[k:]) + ('\n' if len(lines) % 3 else ''))    # (one in three without a final newline)
             lines = lines[:k] + ['include part.asm']
         srck = c.get('src', 'cwd')
-        srcdir = {'cwd': work, 'sub': os.path.join(work, 'src'), 'abs': os.path.join(root, 'proj')}[srck]
+        srcdir = {'cwd': work, 'sub': os.path.join(work, 'src'), 'abs': os.path.join(root, 'proj'), 'symlink': work}[srck]
         os.makedirs(srcdir, exist_ok=True)
         main_path = os.path.join(srcdir, 'main.asm')
-        main_arg = {'cwd': 'main.asm', 'sub': os.path.join('src', 'main.asm'), 'abs': main_path}[srck]
-        with open(main_path, 'w', encoding='utf-8') as f:
+        main_arg = {'cwd': 'main.asm', 'sub': os.path.join('src', 'main.asm'), 'abs': main_path, 'symlink': 'main.asm'}[srck]
+        real_path = main_path
+        if srck == 'symlink':
+            # main.asm is a symbolic link into another directory; a file it includes sits next to the LINK (files are searched
+            # relative to the file containing the include - the name that was given, as the API does)
+            os.makedirs(os.path.join(root, 'store'))
+            real_path = os.path.join(root, 'store', 'main_v2.asm')
+            os.symlink(real_path, main_path)
+            with open(os.path.join(work, 'near.asm'), 'w') as f:
+                f.write('NEAR_K = 21\n')
+            lines = ['include near.asm', 'addi x5, x5, NEAR_K'] + lines
+        with open(real_path, 'w', encoding='utf-8') as f:
             f.write('\n'.join(lines) + ('\n' if (len(lines) + len(c['lines'])) % 3 else ''))    # (one in three without a final newline)
         o_rel = 'bb.out' if c['o'] == 'default' else c['o']
         paths = {'out': os.path.join(work, o_rel), 'hex': os.path.join(work, o_rel + '.hex')}
